@@ -159,6 +159,43 @@ def split_blocks(data):
     return out
 
 
+def bomb_screen(data, limit=1 << 26):
+    ''' True when a byte-string slot of some block holds an unsigned integer >= limit: the repository's
+    BstrField.m2i does bytes(n), i.e. allocates n zero octets (a 9-octet item can ask for 2^64).
+    The harness does not run such inputs through the real decoder (counted, reported separately). '''
+    try:
+        pos = 0
+        mt, n, pos = cb_read_head(data, 0) if data[0] != 0x9f else (4, None, 1)
+        bi = 0
+        while pos < len(data) and data[pos] != 0xff and (n is None or bi < n):
+            mt, cnt, p = cb_read_head(data, pos)
+            if mt != 4 or cnt > 64:
+                return False
+            ct = None
+            for i in range(cnt):
+                m2, v, _ = cb_read_head(data, p)
+                if bi == 0 and i == 2 and m2 == 0:
+                    ct = v
+                slot = (i in (4, 5)) if bi else (i == cnt - 1 and i >= 8 and ct in (1, 2))
+                if m2 == 0 and v >= limit and slot:
+                    return True
+                p = cb_skip(data, p)
+            pos = p
+            bi += 1
+    except (ValueError, IndexError):
+        return False
+    return False
+
+
+def limit_memory(gib=8):
+    ''' giant allocations asked for by corrupted inputs fail fast instead of swapping '''
+    import resource
+    try:
+        resource.setrlimit(resource.RLIMIT_AS, (gib << 30, gib << 30))
+    except (ValueError, OSError):
+        pass
+
+
 def crc_bitwise(width, poly_reflected, data):
     ''' bit-at-a-time reflected CRC, init = xorout = all ones (independent of the crcmod stub) '''
     mask = (1 << width) - 1
